@@ -516,7 +516,10 @@ def write_evidence(mod, tier, seed, per_sub, violations, known_lines, n_replayed
         'wall_s': round(wall, 2),
         'violations': len(violations),
     }
-    d = os.path.join(boot.VERIF, 'evidence')
+    # evidence/ describes runs against /repo; a run against another tree (VERIF_REPO=<scratch copy with a seeded change>)
+    # writes its evidence under out/ so that it can never be mistaken for it
+    d = os.path.join(boot.VERIF, 'evidence') if boot.REPO == '/repo' else os.path.join(boot.VERIF, 'out', 'evidence-other-tree')
+    ev['repo'] = boot.REPO
     os.makedirs(d, exist_ok=True)
     tmp = os.path.join(d, '.%s.json.tmp' % pid)
     with open(tmp, 'w') as f:
